@@ -66,19 +66,22 @@ package loadbalancer
 //@   ensures fresh_copy: len(result) > 0 ==> fresh(result.base)
 
 // ---- least connections
+// C05: least_connections always picks a backend whose number of in-flight requests is minimal AMONG ELIGIBLE
+// backends: an ejected backend (inside its window) neither is picked nor shadows a busier eligible one.
 //@ func (*LeastConnectionsStrategy).NextBackend
 //@   props C02 C05 C12
-//@   requires unlocked(lc.mutex)
+//@   requires unlocked(lc.mutex) && noBackendLocks()
 //@   requires forall i int :: {lc.backends[i]} 0 <= i && i < len(lc.backends) ==> lc.backends[i] != nil
 //@   ensures empty: len(lc.backends) == 0 ==> result == nil
 //@   ensures member: result != nil ==> exists i int :: 0 <= i && i < len(lc.backends) && lc.backends[i] == result
-//@   ensures minimal: result != nil ==> forall i int :: {lc.backends[i]} 0 <= i && i < len(lc.backends) ==> conns(result) <= conns(lc.backends[i])
-//@   ensures picks_one: result == nil && len(lc.backends) > 0 ==> forall i int :: {lc.backends[i]} 0 <= i && i < len(lc.backends) ==> conns(lc.backends[i]) >= 2147483647
+//@   ensures picked_is_eligible: result != nil ==> candidateAt(result, now())
+//@   ensures minimal_among_eligible: result != nil ==> forall i int :: {lc.backends[i]} 0 <= i && i < len(lc.backends) && candidateAt(lc.backends[i], entry_now()) ==> conns(result) <= conns(lc.backends[i])
+//@   ensures nil_only_if_no_candidate: result == nil && len(lc.backends) > 0 ==> forall i int :: {lc.backends[i]} 0 <= i && i < len(lc.backends) && candidateAt(lc.backends[i], entry_now()) ==> conns(lc.backends[i]) >= 2147483647
 //@ loop (*LeastConnectionsStrategy).NextBackend #0
 //@   props C02 C05 C12
 //@   invariant idx: -1 <= rangeindex && rangeindex < len(lc.backends)
-//@   invariant lower: forall k int :: {lc.backends[k]} 0 <= k && k <= rangeindex ==> minConnections <= conns(lc.backends[k])
-//@   invariant attained: selectedBackend != nil ==> conns(selectedBackend) == minConnections && (exists k int :: 0 <= k && k <= rangeindex && lc.backends[k] == selectedBackend)
+//@   invariant lower: forall k int :: {lc.backends[k]} 0 <= k && k <= rangeindex && candidateAt(lc.backends[k], entry_now()) ==> minConnections <= conns(lc.backends[k])
+//@   invariant attained: selectedBackend != nil ==> conns(selectedBackend) == minConnections && candidateAt(selectedBackend, now()) && (exists k int :: 0 <= k && k <= rangeindex && lc.backends[k] == selectedBackend)
 //@   invariant none_yet: selectedBackend == nil ==> minConnections == 2147483647
 //@   decreases len(lc.backends) - rangeindex
 
@@ -175,7 +178,7 @@ package loadbalancer
 //@   ensures other_counters_kept: forall n string :: {lb.healthChecks.unhealthyBackends[n]} n != backend.Name ==> failCount(lb, n) == old(failCount(lb, n))
 //@   ensures cells: bmCellsOK(lb.metricsCollector)
 //@   ensures cells_stay: bmKept(lb.metricsCollector)
-//@   modifies backend.IsHealthy, backend.UnhealthyUntil, mapof(lb.healthChecks.unhealthyBackends), mapof(lb.metricsCollector.metrics.BackendMetrics), metrics.BackendMetrics.IsHealthy, metrics.BackendMetrics.LastHealthCheck
+//@   modifies backend.IsHealthy, backend.UnhealthyUntil, mapof(lb.healthChecks.unhealthyBackends), mapof(lb.metricsCollector.metrics.BackendMetrics), metrics.BackendMetrics.IsHealthy, metrics.BackendMetrics.LastHealthCheck, mirrorAgreedAtEveryRelease
 
 // ---- selection
 // This thread holds none of the strategy locks (every strategy method takes its own lock).
@@ -416,14 +419,14 @@ package loadbalancer
 //@   ensures only_eligible: result != nil ==> result.IsHealthy && inPool(lb, result)
 //@   ensures none_only_if_all_ejected: result == nil ==> forall b *Backend :: inPool(lb, b) ==> !b.IsHealthy && entry_now() <= b.UnhealthyUntil
 //@   ensures cells: bmCellsOK(lb.metricsCollector)
-//@   modifies hashedKey, Backend.IsHealthy, RoundRobinStrategy.current, weightedBackend.currentWeight, mapof(lb.metricsCollector.metrics.BackendMetrics), metrics.BackendMetrics.IsHealthy, metrics.BackendMetrics.LastHealthCheck
+//@   modifies hashedKey, Backend.IsHealthy, RoundRobinStrategy.current, weightedBackend.currentWeight, mapof(lb.metricsCollector.metrics.BackendMetrics), metrics.BackendMetrics.IsHealthy, metrics.BackendMetrics.LastHealthCheck, mirrorAgreedAtEveryRelease
 //@ loop (*LoadBalancer).findHealthyBackend #0
 //@   props C02 C04 C12
 //@   invariant tries: 0 <= i && i <= 3
 //@   invariant cells: bmCellsOK(lb.metricsCollector)
 //@   invariant ok: lbOK(lb) && idle(lb) && poolOK(lb)
 //@   decreases 3 - i
-//@   modifies hashedKey, Backend.IsHealthy, RoundRobinStrategy.current, weightedBackend.currentWeight, mapof(lb.metricsCollector.metrics.BackendMetrics), metrics.BackendMetrics.IsHealthy, metrics.BackendMetrics.LastHealthCheck
+//@   modifies hashedKey, Backend.IsHealthy, RoundRobinStrategy.current, weightedBackend.currentWeight, mapof(lb.metricsCollector.metrics.BackendMetrics), metrics.BackendMetrics.IsHealthy, metrics.BackendMetrics.LastHealthCheck, mirrorAgreedAtEveryRelease
 
 //@ loop (*LoadBalancer).findHealthyBackend #1
 //@   props C02 C04 C12
@@ -433,7 +436,7 @@ package loadbalancer
 //@   invariant examined_in_window: forall k int :: {backends[k]} 0 <= k && k <= rangeindex ==> !backends[k].IsHealthy && entry_now() <= backends[k].UnhealthyUntil
 //@   invariant snapshot_kept: forall x int :: {backing(x, []*Backend)} backing(x, []*Backend) == old(backing(x, []*Backend))
 //@   decreases len(backends) - rangeindex
-//@   modifies Backend.IsHealthy, mapof(lb.metricsCollector.metrics.BackendMetrics), metrics.BackendMetrics.IsHealthy, metrics.BackendMetrics.LastHealthCheck
+//@   modifies Backend.IsHealthy, mapof(lb.metricsCollector.metrics.BackendMetrics), metrics.BackendMetrics.IsHealthy, metrics.BackendMetrics.LastHealthCheck, mirrorAgreedAtEveryRelease
 
 //@ func (*WeightedRoundRobinStrategy).GetBackends
 //@   props C11 C02 C12
@@ -479,7 +482,7 @@ package loadbalancer
 //@             && mtx(lb).BackendMetrics[backend.Name].TotalRequests == (old(has(mtx(lb).BackendMetrics, backend.Name)) ? (old(mtx(lb).BackendMetrics[backend.Name].TotalRequests) + 1) % 18446744073709551616 : 1)
 //@   modifies backend.IsHealthy, backend.UnhealthyUntil, mapof(lb.healthChecks.unhealthyBackends), mapof(lb.metricsCollector.metrics.BackendMetrics),
 //@            metrics.BackendMetrics.IsHealthy, metrics.BackendMetrics.LastHealthCheck, metrics.BackendMetrics.TotalRequests, metrics.BackendMetrics.SuccessfulRequests,
-//@            metrics.BackendMetrics.FailedRequests, metrics.BackendMetrics.AverageResponseTime, metrics.Metrics.SuccessfulRequests, metrics.Metrics.FailedRequests, metrics.Metrics.avgResponseTimeBits
+//@            metrics.BackendMetrics.FailedRequests, metrics.BackendMetrics.AverageResponseTime, metrics.Metrics.SuccessfulRequests, metrics.Metrics.FailedRequests, metrics.Metrics.avgResponseTimeBits, mirrorAgreedAtEveryRelease
 
 //@ func (*LoadBalancer).proxyRequest
 //@   props C01 C07 C13 C12 C03
@@ -504,7 +507,7 @@ package loadbalancer
 //@            metrics.BackendMetrics.IsHealthy, metrics.BackendMetrics.LastHealthCheck, metrics.BackendMetrics.TotalRequests, metrics.BackendMetrics.SuccessfulRequests,
 //@            metrics.BackendMetrics.FailedRequests, metrics.BackendMetrics.AverageResponseTime, metrics.BackendMetrics.ActiveConnections, metrics.Metrics.SuccessfulRequests,
 //@            metrics.Metrics.FailedRequests, metrics.Metrics.avgResponseTimeBits, responseWriter.statusCode, http.ResponseWriter.committed, http.ResponseWriter.status,
-//@            http.ResponseWriter.bodyLen, http.ResponseWriter.flushes, http.ResponseWriter.hijacked
+//@            http.ResponseWriter.bodyLen, http.ResponseWriter.flushes, http.ResponseWriter.hijacked, mirrorAgreedAtEveryRelease
 
 //@ pred proxiesOK(lb *LoadBalancer) := forall b *Backend :: inPool(lb, b) ==> b != nil && b.ReverseProxy != nil
 //@ pred servingOK(lb *LoadBalancer, r *http.Request) := reqOK(lb, r) && lbOK(lb) && idle(lb) && poolOK(lb) && proxiesOK(lb)
@@ -525,7 +528,7 @@ package loadbalancer
 //@            metrics.BackendMetrics.IsHealthy, metrics.BackendMetrics.LastHealthCheck, metrics.BackendMetrics.TotalRequests, metrics.BackendMetrics.SuccessfulRequests,
 //@            metrics.BackendMetrics.FailedRequests, metrics.BackendMetrics.AverageResponseTime, metrics.BackendMetrics.ActiveConnections, metrics.Metrics.SuccessfulRequests,
 //@            metrics.Metrics.FailedRequests, metrics.Metrics.avgResponseTimeBits, responseWriter.statusCode, http.ResponseWriter.committed, http.ResponseWriter.status,
-//@            http.ResponseWriter.bodyLen, http.ResponseWriter.flushes, http.ResponseWriter.hijacked
+//@            http.ResponseWriter.bodyLen, http.ResponseWriter.flushes, http.ResponseWriter.hijacked, mirrorAgreedAtEveryRelease
 
 //@ axiom errBackendFailure != circuitbreaker.ErrCircuitBreakerOpen && errBackendFailure != circuitbreaker.ErrTooManyRequests
 
@@ -908,7 +911,7 @@ package loadbalancer
 //@   requires backend != nil && backend.URL != nil && lbOK(lb) && lb.ctx != nil && noBackendLocks() && unlocked(lb.metricsCollector.metrics.mutex) && bmCellsOK(lb.metricsCollector)
 //@   ensures no_probe_after_cancel: old(lb.ctx.cancelled) ==> probesSent == old(probesSent) && backend.IsHealthy == old(backend.IsHealthy) && backend.UnhealthyUntil == old(backend.UnhealthyUntil)
 //@   ensures at_most_one_probe: probesSent <= old(probesSent) + 1
-//@   modifies chanClosed, probesSent, lastSentCtx, backend.IsHealthy, backend.UnhealthyUntil, mapof(lb.metricsCollector.metrics.BackendMetrics), metrics.BackendMetrics.IsHealthy, metrics.BackendMetrics.LastHealthCheck
+//@   modifies chanClosed, probesSent, lastSentCtx, backend.IsHealthy, backend.UnhealthyUntil, mapof(lb.metricsCollector.metrics.BackendMetrics), metrics.BackendMetrics.IsHealthy, metrics.BackendMetrics.LastHealthCheck, mirrorAgreedAtEveryRelease
 
 // probes carry the balancer's context, so a probe in flight is aborted by Stop
 //@ func (*LoadBalancer).performHealthCheck
